@@ -55,6 +55,8 @@ def build(v, nans):
     import numpy as np
     if k == 'npb': return np.bool_(a)
     if k == 'npi': return np.int64(a)
+    if k == 'npi32': return np.int32(a)
+    if k == 'npf32': return np.float32(a / 2.0)
     if k == 'npf': return np.float64(a / 2.0)
     if k == 'npnan':
         key = ('np', a)
@@ -76,8 +78,8 @@ def coq_val(v):
         return 'VNone'
     k, a = v
     if k in ('b', 'npb'): return '(VBool %s)' % ('true' if a else 'false')
-    if k in ('i', 'npi'): return '(VNum false (%d))' % (2 * a)
-    if k in ('f', 'npf'): return '(VNum true (%d))' % a
+    if k in ('i', 'npi', 'npi32'): return '(VNum false (%d))' % (2 * a)
+    if k in ('f', 'npf', 'npf32'): return '(VNum true (%d))' % a
     if k == 'nan': return '(VNaN %d%%N)' % a
     if k == 'npnan': return '(VNaN %d%%N)' % (1000 + a)
     if k == 'inf': return '(VInf %s)' % ('true' if a else 'false')
@@ -128,9 +130,11 @@ def vrank_type(v):
     """type rank of a JSON value (for non-triviality only)"""
     if v is None: return 0
     k = v[0]
-    return {'b': 1, 'npb': 1, 'd': 2, 'npd': 2, 'date': 2, 'm': 3, 'i': 4, 'f': 4, 'nan': 4, 'inf': 4, 'npi': 4, 'npf': 4, 'npnan': 4, 'l': 5, 's': 6, 't': 7}[k]
+    return {'b': 1, 'npb': 1, 'd': 2, 'npd': 2, 'date': 2, 'm': 3, 'i': 4, 'f': 4, 'nan': 4, 'inf': 4, 'npi': 4, 'npf': 4, 'npi32': 4, 'npf32': 4, 'npnan': 4, 'l': 5, 's': 6, 't': 7}[k]
 
 D0 = 737425 * DAYUS     # 2020-01-01
+FUT = 821700 * DAYUS + 86399999999      # the last microsecond of a day in 2250
+PAST = 400 * DAYUS + 1                  # year 2, one microsecond past midnight
 # adjacent ints beyond 2^53 (cmp compares ints exactly) and float(2**53), which equals the int 2**53
 HUGE = [['i', 2 ** 53], ['i', 2 ** 53 + 1], ['i', 2 ** 53 + 2], ['i', -(2 ** 53) - 1], ['i', 10 ** 30], ['f', 2 ** 54]]
 UNIVERSE = [
@@ -140,7 +144,8 @@ UNIVERSE = [
     ['t', [['i', 2 ** 53 + 1]]], ['t', [['f', 2 ** 54]]],
     ['nan', 0], ['nan', 1], ['npnan', 0], ['inf', False], ['inf', True],
     ['s', ''], ['s', 'a'], ['s', 'A'], ['s', 'ab'], ['s', 'b'], ['s', 'None'], ['s', '1'], ['s', 'é'], ['s', 'a中'],
-    ['d', D0], ['d', D0 + 1000000], ['date', D0], ['npd', D0 + 1000000], ['d', D0 - DAYUS],
+    ['d', D0], ['d', D0 + 1000000], ['date', D0], ['npd', D0 + 1000000], ['d', D0 - DAYUS], ['d', D0 + 1], ['d', FUT], ['d', PAST], ['date', FUT - 86399999999],
+    ['npi32', 2], ['npf32', 3], ['l', [['i', 1]] * 150 + [['i', 2]]], ['l', [['i', 1]] * 150 + [['f', 4]]], ['l', [['f', 2]] * 150 + [['i', 3]]],
     ['t', []], ['l', []], ['m', []], ['m', []],
     ['t', [['i', 1]]], ['t', [['f', 2]]], ['t', [['i', 2]]], ['t', [['i', 1], ['i', 2]]], ['t', [['i', 1], ['s', 'a']]], ['t', [None]],
     ['t', [['nan', 0]]], ['t', [['nan', 1], ['i', 1]]], ['t', [['i', 0], ['i', 1]]],
@@ -153,14 +158,23 @@ UNIVERSE = [
 RULE = RULE % len(UNIVERSE)
 
 # ------------------------------------------------------------------ Coq side
+def ext_universe():
+    """values the Coq model does not represent (non-string dict keys, more numpy scalar types): the property's laws only"""
+    import numpy as np
+    nan = float('nan')
+    return [None, True, 1, 1.0, np.int8(1), np.int16(2), np.float16(1.5), 1.5, np.float32(nan), nan, np.str_('a'), 'a', 'b',
+            {1: 'a'}, {1: 'b'}, {2: 'a'}, {1.0: 'a'}, {(1, 2): 1}, {(1, 3): 1}, {None: 1}, {'a': {1: 2}}, {'a': {1: 3}}, {True: 1},
+            datetime.date(2250, 6, 1), datetime.datetime(2250, 6, 1), datetime.datetime(2250, 6, 1, 0, 0, 0, 1), np.datetime64('1900-01-01T00:00:00.000001'),
+            (np.int8(1), np.float16(1.5)), [np.int16(2)], 10 ** 30, -10 ** 30, float(2 ** 60), 2 ** 60, 2 ** 60 + 1]
+
 LANES = 6
 COQ_PRELUDE = 'Definition U : list val := [' + ';\n '.join(coq_val(v) for v in UNIVERSE) + '].\n' + \
-    ''.join('Definition run_dsort_b%d := run_dsort.\n' % i for i in range(LANES))
+    ''.join('Definition run_dsort_b%d := run_dsort.\nDefinition run_sort_b%d := run_sort.\n' % (i, i) for i in range(LANES))
 
 def coq_runner(case):
-    if 'lane' in case:                  # large tables go to their own cases files so that they are evaluated in parallel
-        return 'run_dsort_b%d' % (case['lane'] % LANES)
-    return {'cmp_row': 'run_cmp_row', 'cmp_laws': 'run_cmp_row', 'cmp3': 'run_cmp3', 'sort': 'run_sort', 'dsort': 'run_dsort'}[case['kind']]
+    if 'lane' in case:                  # large inputs go to their own cases files so that they are evaluated in parallel
+        return 'run_%s_b%d' % ('sort' if case['kind'] == 'sortbig' else 'dsort', case['lane'] % LANES)
+    return {'cmp_row': 'run_cmp_row', 'cmp_laws': 'run_cmp_row', 'cmp_laws_ext': 'run_cmp_row', 'sortbig': 'run_sort', 'cmp3': 'run_cmp3', 'sort': 'run_sort', 'dsort': 'run_dsort'}[case['kind']]
 
 def coq_table(cols):
     return '[' + '; '.join('(%s, [%s])' % (coq_name(c), '; '.join(coq_val(x) for x in cells)) for c, cells in cols) + ']'
@@ -170,6 +184,7 @@ def coq_spec(spec):
         ks = []
         for k in spec['by']:
             if k[0] == 'col': ks.append('KCol %s' % coq_name(k[1]))
+            elif k[0] == 'fn2': ks.append('KFun2 %s %s' % (coq_name(k[1]), coq_name(k[2])))
             else: ks.append('KFun %s %s' % ({'neg': 'FNeg', 'mod3': 'FMod3', 'const': 'FConst'}[k[1]], coq_name(k[2])))
         return '(SBy [%s])' % '; '.join(ks)
     return '(SByVal [%s])' % '; '.join('(%s, [%s])' % (coq_name(c), '; '.join(coq_val(x) for x in vals)) for c, vals in spec['byval'])
@@ -177,9 +192,9 @@ def coq_spec(spec):
 def coq_case(case):
     k = case['kind']
     if k == 'cmp_row': return '(nth %d U VNone, U)' % case['i']
-    if k == 'cmp_laws': return '(VNone, [])'
+    if k in ('cmp_laws', 'cmp_laws_ext'): return '(VNone, [])'
     if k == 'cmp3': return '[' + '; '.join(coq_val(v) for v in case['vals']) + ']'
-    if k == 'sort': return '[' + '; '.join(coq_val(v) for v in case['xs']) + ']'
+    if k in ('sort', 'sortbig'): return '[' + '; '.join(coq_val(v) for v in case['xs']) + ']'
     if k == 'dsort': return '(%s, %s)' % (coq_table(case['cols']), coq_spec(case['spec']))
     raise ValueError(k)
 
@@ -259,13 +274,28 @@ def impl(case):
             return {'status': 'ok' if not bad else row[bad[0]][1], 'obs': row, 'viol': viol}
         M = [[safe_cmp(x, y) for y in U] for x in U]
         return {'status': 'ok', 'obs': [], 'viol': laws_on_matrix(U, M, lambda i: repr(U[i]))}
+    if k == 'cmp_laws_ext':
+        U = ext_universe()
+        M = [[safe_cmp(x, y) for y in U] for x in U]
+        return {'status': 'ok', 'obs': [], 'viol': laws_on_matrix(U, M, lambda i: repr(U[i]))}
     if k == 'cmp3':
         vals = [build(v, nans) for v in case['vals']]
         M = [[safe_cmp(x, y) for y in vals] for x in vals]
-        return {'status': 'ok', 'obs': M, 'viol': laws_on_matrix(vals, M, lambda i: repr(vals[i]))}
-    if k == 'sort':
+        viol = laws_on_matrix(vals, M, lambda i: repr(vals[i]))
+        if viol is None:                  # the Cmp wrapper (what sorted(key = Cmp) uses) agrees with cmp, against wrapped and raw operands
+            for i, x in enumerate(vals):
+                for j, y in enumerate(vals):
+                    got = ((Cmp(x) < Cmp(y)), (Cmp(x) > Cmp(y)), (Cmp(x) < y), (Cmp(x) > y), Cmp(x).cmp(y), Cmp(x).cmp(Cmp(y)))
+                    exp = (M[i][j] == -1, M[i][j] == 1, M[i][j] == -1, M[i][j] == 1, M[i][j], M[i][j])
+                    if got != exp and viol is None:
+                        viol = 'Cmp(%r) vs %r: <, >, raw <, raw >, .cmp, .cmp(Cmp) = %r but cmp = %d' % (x, y, got, M[i][j])
+        return {'status': 'ok', 'obs': M, 'viol': viol}
+    if k in ('sort', 'sortbig'):
         xs = [build(v, nans) for v in case['xs']]
-        st1, r1 = call(sort, list(xs))
+        form = case.get('form', 'list')                 # sort(iterable): a list, a tuple or a one-shot iterator
+        st1, r1 = call(sort, tuple(xs) if form == 'tuple' else iter(list(xs)) if form == 'iter' else list(xs))
+        if st1 == 'ok' and not isinstance(r1, list):
+            return {'status': 'ok', 'obs': ['ERR', 'notalist'], 'viol': 'sort(%s) returned a %s, not a list' % (form, type(r1).__name__)}
         st2, r2 = call(lambda l: sorted(l, key=Cmp), list(xs))
         obs = [[canon(x, nans) for x in r1] if st1 == 'ok' else ['ERR', st1], [canon(x, nans) for x in r2] if st2 == 'ok' else ['ERR', st2]]
         viol = None
@@ -289,11 +319,11 @@ def make_table(cols, nans):
 def canon_table(t, nans):
     return [[str(c), [canon(x, nans) for x in t[c]]] for c in t.keys()]
 
-KFUNS = {'neg': 'lambda %s: -%s', 'mod3': 'lambda %s: %s %% 3', 'const': 'lambda %s: 0 * len(str(%s))'}
+KFUNS = {'neg': 'lambda %s: -%s', 'mod3': 'lambda %s: %s %% 3', 'const': 'lambda %s: 0 if %s is None else 0'}
 def spec_args(spec, nans):
     if 'by' in spec:
-        args = tuple(k[1] if k[0] == 'col' else eval(KFUNS[k[1]] % (k[2], k[2])) for k in spec['by'])
-        return ((list(args),) if spec.get('aslist') else args), {}       # d.sort(['a','b']) is d.sort('a','b')
+        args = tuple(k[1] if k[0] == 'col' else eval('lambda %s, %s: %s + %s' % (k[1], k[2], k[1], k[2])) if k[0] == 'fn2' else eval(KFUNS[k[1]] % (k[2], k[2])) for k in spec['by'])
+        return (((tuple(args) if spec['aslist'] == 'tuple' else list(args)),) if spec.get('aslist') else args), {}       # d.sort(['a','b']) is d.sort('a','b')
     return (), {c: [build(x, nans) for x in vals] for c, vals in spec['byval']}
 
 def py_same(a, b):
@@ -320,7 +350,8 @@ def impl_dsort(case, nans):
         rows_out = [[canon(r[c][i], nans) for c in cols] for i in range(n)]
         expected = None
         if 'by' in case['spec'] and case['spec']['by']:
-            fns = [(lambda row, c=k[1]: row[c]) if k[0] == 'col' else (lambda row, f=eval(KFUNS[k[1]] % ('x', 'x')), c=k[2]: f(row[c])) for k in case['spec']['by']]
+            fns = [(lambda row, c=k[1]: row[c]) if k[0] == 'col' else (lambda row, c1=k[1], c2=k[2]: row[c1] + row[c2]) if k[0] == 'fn2' else
+                   (lambda row, f=eval(KFUNS[k[1]] % ('x', 'x')), c=k[2]: f(row[c])) for k in case['spec']['by']]
             rows = [{c: t[c][i] for c in cols} for i in range(n)]
             keys = [tuple(f(row) for f in fns) for row in rows]
             idx = sorted(range(n), key=functools.cmp_to_key(lambda i, j: cmp(keys[i], keys[j])))      # python's sort is stable
@@ -345,12 +376,12 @@ def impl_dsort(case, nans):
 
 def nontrivial(case, result):
     k = case['kind']
-    if k in ('cmp_row', 'cmp_laws'):
+    if k in ('cmp_row', 'cmp_laws', 'cmp_laws_ext'):
         return True
     if k == 'cmp3':
         r = [vrank_type(v) for v in case['vals']]
         return len(set(r)) < 3
-    if k == 'sort':
+    if k in ('sort', 'sortbig'):
         o = result.get('obs')
         return len(case['xs']) >= 2 and isinstance(o, list) and o and o[0] != [canon_json(v) for v in case['xs']]
     if k == 'dsort':
@@ -367,17 +398,17 @@ def canon_json(v):
 
 def shape(case):
     k = case['kind']
-    if k == 'sort':
+    if k in ('sort', 'sortbig'):
         xs = case['xs']
         tags = set('t' if (v is not None and v[0] == 't') else 'nan' if (v is not None and v[0] == 'nan') else 's' for v in xs)
         flat = [y for v in xs for y in (v[1] if v is not None and v[0] == 't' else [v])]
         nan = any(y is not None and y[0] == 'nan' for y in flat)
         mixed = len(set(vrank_type(y) for y in flat)) > 1
-        return 'sort:%s%s%s' % ('tuples' if 't' in tags else 'scalars', '+nan' if nan else '', '+mixed' if mixed else '')
+        return '%s:%s%s%s%s' % (k, 'tuples' if 't' in tags else 'scalars', '+nan' if nan else '', '+mixed' if mixed else '', ':' + case['form'] if case.get('form') else '')
     if k == 'dsort':
         s = case['spec']
         if 'byval' in s: return 'dsort:byval%d' % len(s['byval'])
-        return 'dsort:by%d%s%s%s' % (len(s['by']), '+fn' if any(x[0] == 'fn' for x in s['by']) else '', '+aslist' if s.get('aslist') else '', ':big' if 'lane' in case else '')
+        return 'dsort:by%d%s%s%s' % (len(s['by']), '+fn2' if any(x[0] == 'fn2' for x in s['by']) else '+fn' if any(x[0] == 'fn' for x in s['by']) else '', '+as%s' % ('tuple' if s.get('aslist') == 'tuple' else 'list') if s.get('aslist') else '', ':big' if 'lane' in case else '')
     return k
 
 # ------------------------------------------------------------------ generation
@@ -390,7 +421,7 @@ def rand_num(rng):
     if r < 0.95: return ['i', rng.choice([2 ** 40, -2 ** 40, 10 ** 9, 7])]
     return ['f', rng.choice([2 ** 41 + 1, -5, 15])]
 def rand_date(rng):
-    return ['d', D0 + rng.choice([0, 0, 1000000, DAYUS, -DAYUS, 37 * DAYUS + 3600 * 10 ** 6])]
+    return ['d', rng.choice([D0, D0, D0 + 1000000, D0 + DAYUS, D0 - DAYUS, D0 + 37 * DAYUS + 3600 * 10 ** 6, D0 + 1, D0 + 999999, FUT, PAST])]    # incl. sub-second, far future, far past
 def rand_domain_scalar(rng, w=None):
     """a scalar of the sort / table domain: None, ints, finite floats, NaN, str, datetimes"""
     r = rng.random()
@@ -472,6 +503,7 @@ def rand_sort_list(rng, tier):
     return [sc(mode) for _ in range(n)]
 
 COLS = ['a', 'b', 'c', 'd']
+NAMEPOOL = ['a', 'b', 'c', 'd', 'key', 'name', 'date', 'x y', 'A', 'len', 'keys', 'items', 'values', 'Key', 'col_1', 'z9']     # dict methods, builtins, a space, cases
 def rand_column(rng, n, mode=None):
     mode = mode or rng.choice(['ints', 'ints', 'nums', 'numsnan', 'strs', 'mixed', 'mixed', 'dates', 'none', 'bin', 'bin', 'huge'])
     out = []
@@ -491,7 +523,7 @@ def rand_table(rng, tier, nmax=8):
     ncol = rng.choice([2, 2, 3, 3, 4])
     n = rng.choice([0, 1, 2, 3, 4, 5, 6, nmax])
     cols = []; modes = {}
-    for c in COLS[:ncol]:
+    for c in (COLS[:ncol] if rng.random() < 0.5 else rng.sample(NAMEPOOL, ncol)):
         m, cells = rand_column(rng, n)
         cols.append([c, cells]); modes[c] = m
     return cols, modes, n
@@ -504,15 +536,18 @@ def rand_dsort(rng, tier):
         by = []
         for _ in range(rng.choice([1, 1, 2, 2, 3])):
             c = rng.choice(names)
-            if modes[c] == 'ints' and rng.random() < 0.35:
+            ints = [x for x in names if modes[x] == 'ints' and x.isidentifier()]
+            if len(ints) >= 2 and rng.random() < 0.12:
+                c1, c2 = rng.sample(ints, 2); by.append(['fn2', c1, c2])            # a key function of two columns
+            elif modes[c] == 'ints' and c.isidentifier() and rng.random() < 0.35:
                 by.append(['fn', rng.choice(['neg', 'mod3']), c])
-            elif rng.random() < 0.05:
+            elif rng.random() < 0.05 and c.isidentifier():
                 by.append(['fn', 'const', c])
             else:
                 by.append(['col', c])
         spec = {'by': by}
         if rng.random() < 0.12:
-            spec = {'by': [k for k in by if k[0] == 'col'][:rng.choice([0, 1, 2, 3])], 'aslist': True}
+            spec = {'by': [k for k in by if k[0] == 'col'][:rng.choice([0, 1, 2, 3])], 'aslist': rng.choice([True, True, 'tuple'])}
     else:
         bv = []
         for c in rng.sample(names, rng.choice([1, 1, 2])):
@@ -548,7 +583,7 @@ def dedupe(vals):
 
 def gen_cases(rng, tier):
     q = tier == 'quick'
-    cases = [{'kind': 'cmp_laws'}] + [{'kind': 'cmp_row', 'i': i} for i in range(len(UNIVERSE))]
+    cases = [{'kind': 'cmp_laws'}, {'kind': 'cmp_laws_ext'}] + [{'kind': 'cmp_row', 'i': i} for i in range(len(UNIVERSE))]
     for _ in range(700 if q else 8000):
         x = rand_val(rng, 3)
         y = perturb(rng, x) if rng.random() < 0.8 else rand_val(rng, 3)
@@ -556,7 +591,14 @@ def gen_cases(rng, tier):
         vals = [x, y, z]; rng.shuffle(vals)
         cases.append({'kind': 'cmp3', 'vals': vals})
     for _ in range(1200 if q else 20000):
-        cases.append({'kind': 'sort', 'xs': rand_sort_list(rng, tier)})
+        c = {'kind': 'sort', 'xs': rand_sort_list(rng, tier)}
+        f = rng.choice(['list', 'list', 'tuple', 'iter'])
+        if f != 'list': c['form'] = f
+        cases.append(c)
+    for lane in range(8 if q else 40):                       # long lists (python's sort changes strategy at 64 elements)
+        n = rng.randrange(101, 301); mode = rng.choice(['nums', 'mixed', 'tuples'])
+        xs = [(['t', [['i', rng.randrange(0, 4)], rand_domain_scalar(rng)]] if mode == 'tuples' else rand_num(rng) if mode == 'nums' else rand_domain_scalar(rng)) for _ in range(n)]
+        cases.append({'kind': 'sortbig', 'xs': xs, 'lane': lane})
     for _ in range(900 if q else 12000):
         cases.append(rand_dsort(rng, tier))
     for i in range(12 if q else 60):
@@ -565,9 +607,14 @@ def gen_cases(rng, tier):
 
 def shrink(case):
     k = case['kind']
-    if k == 'sort':
+    if k in ('sort', 'sortbig'):
         xs = case['xs']
-        for i in range(len(xs)):
+        size = len(xs) // 2
+        while size >= 8:
+            for i in range(0, len(xs), size):
+                yield dict(case, xs=xs[:i] + xs[i + size:])
+            size //= 2
+        for i in range(len(xs) if len(xs) <= 60 else 0):
             yield dict(case, xs=xs[:i] + xs[i + 1:])
         for i, v in enumerate(xs):
             if v is not None and v[0] in ('i', 'f') and v[1] != 0:
@@ -582,7 +629,7 @@ def shrink(case):
             if n > 60 and size < n // 8: break        # large tables: coarse blocks only (every candidate is a fresh run of the implementation)
         for i in range(n if n <= 60 else 0):
             yield dict(case, cols=[[c, cells[:i] + cells[i + 1:]] for c, cells in cols])
-        used = set(x[-1] for x in case['spec'].get('by', [])) | set(c for c, _ in case['spec'].get('byval', []))
+        used = set(c for x in case['spec'].get('by', []) for c in x[1:]) | set(c for c, _ in case['spec'].get('byval', []))
         for j, (c, _) in enumerate(cols):
             if c not in used and len(cols) > 1:
                 yield dict(case, cols=cols[:j] + cols[j + 1:])
